@@ -233,6 +233,17 @@ def scenario_scope(res, pid, rng, tier):
                 fails.append(dict(ctx, kind="a netmask-shaped value is rewritten by undo on an anonymizer that produced it as an image earlier",
                                   history=["anonymize 'ntp server %s' -> %r" % (v4(x), r[0])], line="ip address 10.1.2.3 %s" % v4(mk),
                                   output=r[1], expected=exp_b))
+    # ... and a netmask-shaped value together with the address mapped onto it in one run, in both orders
+    for order in (0, 1):
+        ls = []
+        for mk, x in zip(masks, pre):
+            pair = ["ip address 10.1.2.3 %s" % v4(mk), "ntp server %s" % v4(x)]
+            ls += pair if order == 0 else pair[::-1]
+        ctx = {"salt": salt, "order": "mask first" if order == 0 else "pre-image first"}
+        got = _try(fails, "a netmask-shaped value and the address mapped onto it in one run", ctx, lambda: _run(_fa(salt), ls))
+        res.evaluations += len(ls)
+        if got is not None:
+            _cmp(fails, "a netmask-shaped value and the address mapped onto it in one run", ctx, ls, got, spec_lines(salt, ls))
     res.nt(("scn", "mask-undo"))
 
     # ---- H. command line: --preserve-addresses together with --preserve-private-addresses; addresses that would map into the
